@@ -124,17 +124,28 @@ class Cron(addons.AddonMainTask, block.SBlock):
         reset = Flag(False)
         reload = Flag(True)     # reload will also initialize the index
         short_sleep = False     # alternative sleep function used => do not compute overhead
+        recalc_all = False      # recalculate all blocks after a reload
         while True:
             if reload.test_clear():
                 timetable = sorted(_SET24.union(self._alarms))
                 tlen = len(timetable)
                 self.log_debug("time schedule reloaded")
                 index = None
+                recalc_all = True
 
             nowdt = self.dtnow()
             nowt = nowdt.time()
             if index is None:
                 index = bisect.bisect_left(timetable, nowt) % tlen
+            if recalc_all:
+                # An alarm could have passed between the moment a block was (re)configured
+                # and this reload. Such alarm will not be serviced, because the index was
+                # just computed from the current time. Recalculate all blocks using
+                # the very same time in order not to miss any output change.
+                recalc_all = False
+                for blk in set().union(*self._alarms.values()):
+                    assert hasattr(blk, 'recalc')
+                    blk.recalc(nowdt)
             wakeup = timetable[index]
             self.log_debug("wakeup time: %s", wakeup)
 
